@@ -54,6 +54,7 @@ type Proj struct {
 	Files   map[string]*File  // by ID
 	Order   []string          // file IDs in creation order
 	Srcs    map[string]string // root-relative path -> content (regular source files)
+	Missing map[string]bool   // declared sources whose file is currently deleted
 	Args    []string
 	FlagVal string
 	Pause   bool // module top-level code calls v.pause
@@ -303,6 +304,9 @@ func (p *Proj) WriteAll(root string) {
 		// the lib directory needs no BUILD.dawn: helper modules are loaded by label.
 	}
 	for rel, content := range p.Srcs {
+		if p.Missing[rel] {
+			continue
+		}
 		path := filepath.Join(root, rel)
 		os.MkdirAll(filepath.Dir(path), 0o755)
 		os.WriteFile(path, []byte(content), 0o644)
